@@ -11,6 +11,7 @@
 -/
 import Proofs.DbLift
 import Proofs.DbRead
+import Proofs.DbUnified
 namespace Hap.C11
 open Hap Hap.Db
 
@@ -42,29 +43,75 @@ theorem C11_cached_eq_fresh (s : Db V P) (incl : Bool) (g : Nat → Option V) (h
     (s.renderCached incl g).1 = (s.render incl g).1 :=
   (Db.renderCached_spec s incl g h).1
 
-/-- **Every read in every history is fresh.** Split any history at any operation: what that
-    operation answers (GET /accessories document, GET /characteristics response) is what a
-    from-scratch implementation answers in the state reached by the operations before it. -/
-theorem C11_reads_fresh (s : Db V P) (pre : List (Op11 V P)) (op : Op11 V P) (h : s.CacheOk) :
-    ((s.run11 pre).step11 op).2 = (s.run11 pre).freshOut op := by
-  have hp := C11_cache_inv s pre h
+/-- **GET /characteristics meets the read specification.**  `Db.readSpec` judges every
+    requested id against the ONE state in which the request arrives (the getter's outcome when a
+    getter is installed, else the stored value; failure for an unavailable accessory, an iid
+    that names no characteristic, a raising getter; no entry for an unknown accessory of a
+    bridge) and never looks at a cache field.  The response the code computes — id by id, with
+    getter results written back in between — is exactly the 200/207 selection over it. -/
+theorem C11_read_spec (s : Db V P) (ids : List (Nat × Nat)) (g : Nat → Option V) :
+    (s.handleGet ids g).1 = selectStatus (s.readSpec g ids 0) :=
+  Db.handleGet_spec s ids g
+
+/-- a read in a state with valid caches answers what a from-scratch implementation answers
+    (`Db.freshOut`: the cache-free rendering, resp. the read specification) -/
+theorem C11_read_fresh_at (s : Db V P) (op : Op11 V P) (hp : s.CacheOk) :
+    (s.step11 op).2 = s.freshOut op := by
   cases op with
   | readAll incl g =>
-    have := C11_cached_eq_fresh (s.run11 pre) incl g hp
+    have := C11_cached_eq_fresh s incl g hp
     simp only [Db.step11, Db.freshOut]
-    rcases hr : (s.run11 pre).renderCached incl g with ⟨r, s'⟩
+    rcases hr : s.renderCached incl g with ⟨r, s'⟩
     rw [hr] at this
     simp only at this
     rw [this]
   | readChars ids g =>
+    have := C11_read_spec s ids g
     simp only [Db.step11, Db.freshOut]
+    rcases hr : s.handleGet ids g with ⟨r, s'⟩
+    rw [hr] at this
+    simp only at this
+    rw [this]
   | setValue o v => rfl
+  | assignValue o v => rfl
   | clientUpdate o v cb => rfl
   | overrideProps o ov => rfl
   | setDisplay o n => rfl
   | setGetter o b => rfl
   | setAvailable a b => rfl
   | setPrimary a t => rfl
+  | addLinked a sv o => rfl
+
+/-- **Every read in every history is fresh.** Split any history at any operation: what that
+    operation answers (GET /accessories document, GET /characteristics response) is what a
+    from-scratch implementation answers in the state reached by the operations before it. -/
+theorem C11_reads_fresh (s : Db V P) (pre : List (Op11 V P)) (op : Op11 V P) (h : s.CacheOk) :
+    ((s.run11 pre).step11 op).2 = (s.run11 pre).freshOut op :=
+  C11_read_fresh_at _ op (C11_cache_inv s pre h)
+
+/-- **All histories through the public API.**  Start from a freshly constructed accessory or
+    bridge (any service definitions) and apply ANY sequence over the union of the alphabets:
+    construction (add service, add / remove bridged accessory with explicit or automatic aid,
+    IIDManager assign / remove_obj / remove_iid), value and metadata changes (set_value, plain
+    value assignment, controller write, override_properties, display name, getter install /
+    removal, availability, primary service) and reads of both kinds.  The state reached is
+    well-formed and every cache field is empty or equals the from-scratch rendering. -/
+theorem C11_all_histories_inv (isBridge : Bool) (defs : List (SvcDef V P)) (ops : List (OpU V P)) :
+    ((Db.init isBridge defs).runU ops).Good ∧ ((Db.init isBridge defs).runU ops).CacheOk :=
+  runU_inv _ ops (init_good isBridge defs) (cacheOk_of_db_uncached _ (init_uncached isBridge defs))
+
+/-- … hence every read at every point of every such history is fresh: no stale copy is ever
+    served, whatever structural changes, mutations and earlier reads came before it. -/
+theorem C11_all_histories_reads_fresh (isBridge : Bool) (defs : List (SvcDef V P)) (pre : List (OpU V P))
+    (op : Op11 V P) :
+    (((Db.init isBridge defs).runU pre).stepU (.db op)).2 =
+      .out (((Db.init isBridge defs).runU pre).freshOut op) := by
+  have h := C11_read_fresh_at ((Db.init isBridge defs).runU pre) op (C11_all_histories_inv isBridge defs pre).2
+  simp only [Db.stepU]
+  rcases hr : ((Db.init isBridge defs).runU pre).step11 op with ⟨s', o⟩
+  rw [hr] at h
+  simp only at h
+  rw [h]
 
 /-- the per-characteristic statement behind it: `to_HAP` with valid caches returns the
     from-scratch rendering, keeps the caches valid and has the same effect on the stored state
@@ -197,6 +244,44 @@ example :
     ((demoDb.handleGet [(1, 2), (1, 9)] (fun _ => none)).1.code,
      (demoDb.handleGet [(1, 2), (1, 9)] (fun _ => none)).1.entries.map (fun e => (e.iid, e.status, e.value)))
       = (207, [(2, some 0, some 0), (9, some (-70402), none)]) := by
+  decide
+
+/-- a unified history: read, add a service (fresh objects 2, 3), read, remove the new
+    characteristic's iid and assign it again (iid 4 → 5), write 9 to it, read: the last read lists
+    it under iid 5 with value 9 -/
+example :
+    ((((Db.init false [{ typ := "43", chars := [{ typ := "25", props := true, name := some "On", value := 0,
+                                                   alwaysNull := false }] }] : Db Nat Bool).runU
+        [.db (.readAll true (fun _ => none)),
+         .con (.addService 1 { typ := "49", chars := [{ typ := "25", props := true, name := some "On", value := 1,
+                                                        alwaysNull := false }] }),
+         .db (.readAll true (fun _ => none)),
+         .con (.removeObj 1 3), .con (.assign 1 3),
+         .db (.setValue 3 (some 9))]).renderCached true (fun _ => none)).1.map
+      (fun l => l.map (fun a => a.services.map (fun sv => sv.chars.map (fun c => (c.iid, c.value))))))
+      = some [[[(some 2, some 0)], [(some 5, some 9)]]] := by
+  decide
+
+/-- linked services: after the information-less demo accessory got a second service (objects 2, 3)
+    and the first was linked to it twice, the first service lists `linked = [3]` once; after the
+    second service was taken out of the manager and assigned again the member shows its new iid -/
+def outletDef : SvcDef Nat Bool :=
+  { typ := "49", chars := [{ typ := "25", props := true, name := none, value := 1, alwaysNull := false }] }
+
+def linkedDemo : Db Nat Bool :=
+  demoDb.runU [.con (.addService 1 outletDef), .db (.addLinked 1 0 2), .db (.addLinked 1 0 2)]
+
+example :
+    ((linkedDemo.renderCached false (fun _ => none)).1.map (fun l => l.map (fun a => a.services.map (·.linked))),
+     ((linkedDemo.runU [.con (.removeObj 1 2), .con (.assign 1 2)]).renderCached false (fun _ => none)).1.map
+        (fun l => l.map (fun a => a.services.map (·.linked))))
+      = (some [[[some 3], []]], some [[[some 5], []]]) := by
+  decide
+
+/-- the read specification on the demo database: the characteristic, an unknown iid, the service -/
+example :
+    (demoDb.readSpec (fun _ => none) [(1, 2), (1, 9), (1, 1)] 0).map (fun e => (e.iid, e.status, e.value))
+      = [(2, some 0, some 0), (9, some (-70402), none), (1, some (-70402), none)] := by
   decide
 
 /-- the `display_name` setter without its `_clear_cache()` (a regression the check must see) -/
